@@ -25,7 +25,7 @@ def i_ADC(i, fmap):
     op1, op2 = map(fmap, i.operands[1:])
     x, carry, overflow = AddWithCarry(op1, op2, fmap(C))
     if i.setflags:
-        fmap[N] = x < 0
+        fmap[N] = x.bit(-1)
         fmap[Z] = x == 0
         fmap[C] = carry
         fmap[V] = overflow
@@ -37,7 +37,7 @@ def i_SBC(i, fmap):
     op1, op2 = map(fmap, i.operands[1:])
     x, carry, overflow = SubWithBorrow(op1, op2, fmap(C))
     if i.setflags:
-        fmap[N] = x < 0
+        fmap[N] = x.bit(-1)
         fmap[Z] = x == 0
         fmap[C] = carry
         fmap[V] = overflow
@@ -49,7 +49,7 @@ def i_ADD(i, fmap):
     op1, op2 = map(fmap, i.operands[1:])
     x, carry, overflow = AddWithCarry(op1, op2)
     if i.setflags:
-        fmap[N] = x < 0
+        fmap[N] = x.bit(-1)
         fmap[Z] = x == 0
         fmap[C] = carry
         fmap[V] = overflow
@@ -61,7 +61,7 @@ def i_SUB(i, fmap):
     op1, op2 = map(fmap, i.operands[1:])
     x, carry, overflow = SubWithBorrow(op1, op2)
     if i.setflags:
-        fmap[N] = x < 0
+        fmap[N] = x.bit(-1)
         fmap[Z] = x == 0
         fmap[C] = carry
         fmap[V] = overflow
@@ -214,7 +214,7 @@ def i_CCMN(i, fmap):
     fmap[pc] = fmap[pc] + i.length
     op1, op2, nzcv, cond = i.operands
     _r, carry, overflow = AddWithCarry(fmap(op1), fmap(op2))
-    fmap[N] = tst(fmap(cond), _r < 0, i.flags[0])
+    fmap[N] = tst(fmap(cond), _r.bit(-1), i.flags[0])
     fmap[Z] = tst(fmap(cond), _r == 0, i.flags[1])
     fmap[C] = tst(fmap(cond), carry, i.flags[2])
     fmap[V] = tst(fmap(cond), overflow, i.flags[3])
@@ -224,7 +224,7 @@ def i_CCMP(i, fmap):
     fmap[pc] = fmap[pc] + i.length
     op1, op2, nzcv, cond = i.operands
     _r, carry, overflow = SubWithBorrow(fmap(op1), fmap(op2))
-    fmap[N] = tst(fmap(cond), _r < 0, i.flags[0])
+    fmap[N] = tst(fmap(cond), _r.bit(-1), i.flags[0])
     fmap[Z] = tst(fmap(cond), _r == 0, i.flags[1])
     fmap[C] = tst(fmap(cond), carry, i.flags[2])
     fmap[V] = tst(fmap(cond), overflow, i.flags[3])
